@@ -62,6 +62,8 @@ def seeds():
         'get10': [b'GET / HTTP/1.0', [b'Accept: */*'], b''],
         'post': [b'POST /p HTTP/1.1', [b'Host: example.test', b'Content-Length: 5'], b'hello'],
         'chunked': [b'POST /p HTTP/1.1', [b'Host: example.test', b'Transfer-Encoding: chunked'], b'5\r\nhello\r\n0\r\n\r\n'],
+        'chtrail': [b'POST /p HTTP/1.1', [b'Host: example.test', b'Transfer-Encoding: chunked'],
+                    b'5;ext=1\r\nhello\r\n0\r\nX-Trailer: t\r\nX-Other: u\r\n\r\n'],
     }
 
 
